@@ -13,7 +13,8 @@ EXPLANATION = (
     "read-only-gated bookkeeping), each exemption naming its reason; on a consistent filesystem no problem is raised, so no "
     "gated mutator runs; (b) no function of pass5.c reaches an inode, directory-block, extent or xattr writer; (c) a "
     "checksum-only mismatch of a directory leaf / inode leads to rewriting (checksum recomputed), not to clearing; (d) wherever "
-    "two extents are merged, the merge is conditional on their UNINIT flags being equal.  Decides gating and layering on every "
+    "two extents are merged, the merge is conditional on their UNINIT flags being equal; (e) the counters behind the inode scan's per-block "
+    "'mostly garbage' verdict are zeroed whenever the scan leaves an inode-table block.  Decides gating and layering on every "
     "path; not that -D / extent rebuilding preserve names and bytes.")
 
 FILES = ("e2fsck/pass1.c", "e2fsck/pass1b.c", "e2fsck/pass2.c", "e2fsck/pass3.c", "e2fsck/pass4.c", "e2fsck/pass5.c",
@@ -228,6 +229,65 @@ def run(world, rep, tier, only=None):
                        "`%s` is conditional on (a.e_flags & UNINIT) == (b.e_flags & UNINIT): %s" %
                        (n.text()[:40], [("" if t else "!") + T.pp(a)[:60] for t, a in lits][:4]))
     rep.floor("C05.d extent merge sites", n_merge, 1)
+
+    # ------------------------------------------------------------------ C05.e per-block verdicts use per-block counters
+    # The inode scan declares a whole inode-table block garbage ("more than half the inodes are bad")
+    # and e2fsck then offers to clear every inode in it.  The counters that feed that verdict must be
+    # reset whenever the scan moves on to the next block, or damage spread thinly over several blocks
+    # condemns the healthy inodes of a later one.
+    lib = world.program("e2fsck")
+    cs = lib.fn("check_inode_block_sanity", "lib/ext2fs/inode.c")
+    verdicts = [n for n in cs.events("S") if T.path(n.ev["lhs"]) == "block_status" and
+                T.strip(n.ev["lhs"]).get("k") in ("x", "u")]
+    rep.floor("C05.e per-block verdict stores in check_inode_block_sanity", len(verdicts), 2)
+    def is_reset(n, name):
+        return T.path(n.ev["lhs"]) == name and n.ev.get("o") == "=" and (T.const(n.ev.get("rhs")) == 0 or _chain_zero(n))
+    bumped = {T.path(n.ev["lhs"]) for n in cs.events("S") if n.ev.get("o") in ("++", "+=")}
+    zeroed = {T.path(n.ev["lhs"]) for n in cs.events("S") if is_reset(n, T.path(n.ev["lhs"]))}
+    counters = set()
+    per_verdict = []
+    for v in verdicts:
+        hb = loop_head(cs, v)
+        if hb is None:
+            continue
+        body = cs.reach([cs.node(cs.blocks[hb]["s"][0], 0)], avoid=[cs.block_end(hb)])
+        inloop = [(bid, t, a) for (bid, t, a) in cs.control_literals(v) if cs.block_end(bid) in body]
+        for (bid, t, a) in inloop:
+            counters |= {x for x in T.vars_in(a) if x in bumped and x in zeroed}
+        per_verdict.append((v, hb, body, inloop))
+    rep.floor("C05.e verdict counters", len(counters), 1)
+    for (v, hb, body, inloop) in per_verdict:
+        # the point at which the scan is done with the block: the innermost condition of the verdict
+        # that does not read a counter ("this was the last inode of the block"); the verdict store
+        # itself when every condition reads counters ("more than half are bad: skip the rest")
+        def depth(bid):
+            return len([1 for (b2, _t, _a) in cs.control_literals(cs.block_end(bid)) if cs.block_end(b2) in body])
+        plain = [(bid, t, a) for (bid, t, a) in inloop if not (T.vars_in(a) & counters)]
+        if plain:
+            bid, t, a = max(plain, key=lambda x: depth(x[0]))
+            lit = cs.literal(bid)
+            si = 0 if (t == lit[1]) else 1
+            starts = [m for (m, i) in cs.succ(cs.block_end(bid)) if i == si]
+            what = "%s%s" % ("" if t else "!", T.pp(a)[:40])
+        else:
+            starts = cs.after(v)
+            what = "the verdict `%s`" % v.text()[:40]
+        head0 = cs.node(hb, 0)
+        for c in sorted(counters):
+            resets = [n for n in cs.events("S") if is_reset(n, c)]
+            r = cs.reach([s for s in starts if s not in resets], avoid=resets)
+            leak = head0 in r
+            rep.ob("C05.e", site(cs, "%s reset when the scan leaves a block after %s" % (c, what)),
+                   not leak, "every path from there back to the loop head stores %s = 0 (counters feeding the per-block "
+                   "verdicts: %s)" % (c, sorted(counters)))
+
+
+def _chain_zero(n):
+    """`a = b = 0` is reported as a store whose rhs is the inner assignment"""
+    r = T.strip(n.ev.get("rhs"))
+    while isinstance(r, dict) and r.get("k") == "b" and r.get("o") == "=":
+        r = T.strip(r.get("r"))
+    return isinstance(r, dict) and T.const(r) == 0
 
 
 def _behind_readonly(prog, G, fn, node, depth=0, seen=()):
